@@ -611,7 +611,7 @@ int disasm_arm64(
           if (v == 1)
           {
             size |= ((opcode >> 23) & 1) << 2;
-            reg_name = scalar_size[size];
+            reg_name = size < (int)sizeof(scalar_size) ? scalar_size[size] : '?';
           }
             else
           {
